@@ -75,8 +75,13 @@ pub fn check(ctx: &mut Ctx, c: &Case, prefixes: bool) -> Result<(), String> {
     if v.flags & RESERVED != 0 {
         return Err("reserved flag bits set".into());
     }
-    if v.flags & 0x1D != (c.flags & 0x1D) | 0x18 {
-        return Err(format!("flag byte 0x{:02X} does not carry the flags set (0x{:02X} plus default BE|BS)", v.flags, c.flags & 0x1D));
+    // the flags handed to set_flags must be there; which other informational bits (BE/BS) the constructor sets by
+    // default is not part of the statement
+    if v.flags & (c.flags & 0x1D) != c.flags & 0x1D {
+        return Err(format!("flag byte 0x{:02X} does not carry the flags that were set (0x{:02X})", v.flags, c.flags & 0x1D));
+    }
+    if c.flags & 0x05 != v.flags & 0x05 {
+        return Err(format!("flag byte 0x{:02X}: UP/UV differ from the flags that were set (0x{:02X})", v.flags, c.flags & 0x1D));
     }
     if (v.flags & AT != 0) != c.att.is_some() {
         return Err(format!("AT bit is {} but attested credential data present = {}", v.flags & AT != 0, c.att.is_some()));
@@ -113,8 +118,9 @@ pub fn check(ctx: &mut Ctx, c: &Case, prefixes: bool) -> Result<(), String> {
             Ext::None => vec![],
         };
         let want_keys: Vec<&str> = want.iter().filter(|(_, p)| *p).map(|(k, _)| *k).collect();
-        let got_keys: Vec<&str> = m.iter().filter_map(|(k, _)| k.as_text()).collect();
-        if got_keys != want_keys {
+        let mut got_keys: Vec<&str> = m.iter().filter_map(|(k, _)| k.as_text()).collect();
+        got_keys.sort();
+        if got_keys.len() != m.len() || got_keys != want_keys {
             return Err(format!("extension map keys {got_keys:?}, expected {want_keys:?}"));
         }
         match &c.ext {
@@ -193,9 +199,11 @@ pub fn check(ctx: &mut Ctx, c: &Case, prefixes: bool) -> Result<(), String> {
                         return Err("reserved flag bits accepted".into());
                     }
                     let again = catch_unwind(AssertUnwindSafe(|| v.to_vec())).map_err(|_| "to_vec panicked on a decoded value".to_string())?;
+                    // compared on the re-encoded bytes: a corruption can make payload bytes parse as a CBOR NaN,
+                    // and a value holding a NaN is not equal to itself
                     match AuthenticatorData::from_slice(&again) {
-                        Ok(v2) if v2 == v => {}
-                        other => return Err(format!("decode/encode/decode is not a fixpoint after corrupting byte {pos}: {other:?}").chars().take(400).collect()),
+                        Ok(v2) if v2.to_vec() == again => {}
+                        other => return Err(format!("decode/encode/decode/encode is not a fixpoint after corrupting byte {pos}: {other:?}").chars().take(400).collect()),
                     }
                 }
             }
